@@ -133,7 +133,7 @@ def check_pair(prop, pair, tier, keep):
     os.makedirs(d)
     res = {"name": name, "label": pair.get("label", "P"), "config": pair.get("config", "REL"),
            "enforce": pair.get("enforce"), "replace": pair.get("replace", []),
-           "status": "ok", "obligations": 0, "discharged": 0, "failed": [], "unwind_failed": [],
+           "status": "ok", "obligations": 0, "discharged": 0, "failed": [], "unwind_failed": [], "unknown": [],
            "reason": "", "solver_s": 0.0, "wall_s": 0.0, "backend": "cbmc-6.11 SAT (minisat2)",
            "K": pair.get("K"), "functions": pair.get("functions", [])}
     t0 = time.time()
@@ -250,8 +250,10 @@ def check_pair(prop, pair, tier, keep):
             res["discharged"] += 1
             if len(samples) < 3 and ("postcondition" in pid or "assertion" in pid):
                 samples.append({"id": pid, "text": desc[:200]})
-        elif "unwind" in pid:
+        elif "unwind" in pid and st == "FAILURE":
             res["unwind_failed"].append(pid)
+        elif st != "FAILURE":
+            res["unknown"].append(pid)      # UNKNOWN: only reachable past a failed obligation
         else:
             res["failed"].append({"id": pid, "text": desc[:300], "loc": r.get("sourceLocation", {})})
     res["samples"] = samples
@@ -291,6 +293,8 @@ def check_pair(prop, pair, tier, keep):
                 res["trace_error"] = repr(e)
     elif res["status"] == "ok" and res["unwind_failed"]:
         res.update(status="undecided", reason="unwinding assertion failed: " + ",".join(res["unwind_failed"][:3]))
+    elif res["status"] == "ok" and res["unknown"]:
+        res.update(status="undecided", reason="obligations with status UNKNOWN: " + ",".join(res["unknown"][:3]))
     res["wall_s"] = round(time.time() - t0, 2)
     if not keep and res["status"] == "ok":
         for f in ("a.gb", "b.gb"):
